@@ -40,7 +40,7 @@ func vfNormSegs(in []vfSeg) []vfSeg {
 func TestVerifC10Loader(t *testing.T) {
 	defer stats.Flush()
 	rapid.Check(t, func(t *rapid.T) {
-		m := mgen.Gen(t, mgen.GenOpts{Signed: rapid.Bool().Draw(t, "signed")})
+		m := mgen.Gen(t, mgen.GenOpts{Signed: rapid.Bool().Draw(t, "signed"), BigStreams: rapid.IntRange(0, 5).Draw(t, "bigStreams") == 0})
 		txt := m.Text()
 		refp, err := mgen.Interpret(txt, mgen.Options{})
 		if err != nil {
